@@ -238,3 +238,128 @@ func VerifNewTaintWorld(args, rets [][]int, sinkOperand int) *VerifTaintWorld {
 	w.Sink = link(cSink, sink, 5, nil)
 	return w
 }
+
+// VerifValidatorWorld builds `t0 = source(); c = validate(t0)` followed by a sink call placed according to shape:
+//
+//	0: if c { sink(t0) }          1: if c { } else { sink(t0) }     2: if c { } ; sink(t0) (after the join)
+//	3: sink(t0) before validate   4: for { sink(t0); if !validate(t0) { break } } (single-block loop)
+//	5: if !c { sink(t0) }         6: if !c { } else { sink(t0) }
+//
+// and summarises it with the real intra-procedural analysis.
+type VerifValidatorWorld struct {
+	State  *AnalyzerState
+	Main   *SummaryGraph
+	Source *CallNode
+	Sink   *CallNode
+	Err    error
+}
+
+func VerifNewValidatorWorld(shape int) *VerifValidatorWorld {
+	w := &VerifValidatorWorld{}
+	intT := types.Type(types.Typ[types.Int])
+	boolT := types.Type(types.Typ[types.Bool])
+	tpkg := types.NewPackage("example.com/p", "p")
+	pkg := &ssa.Package{Pkg: tpkg}
+	prog := &ssa.Program{Fset: token.NewFileSet()}
+	mainFn := &ssa.Function{Signature: hSig(0, 0), Prog: prog, Pkg: pkg}
+	verifSetUnexported(mainFn, "name", "main")
+	source := verifExternal("source", 0, 1, pkg)
+	sink := verifExternal("sink", 1, 0, pkg)
+	validate := verifExternal("Validate", 1, 1, pkg)
+	validate.Signature = types.NewSignatureType(nil, nil, nil, types.NewTuple(types.NewVar(token.NoPos, tpkg, "x", intT)),
+		types.NewTuple(types.NewVar(token.NoPos, tpkg, "", boolT)), false)
+	typed := func(i ssa.Instruction, t types.Type) { verifSetUnexported(i, "typ", t) }
+	cSrc := &ssa.Call{}
+	cSrc.Call.Value = source
+	typed(cSrc, intT)
+	cVal := &ssa.Call{}
+	cVal.Call.Value = validate
+	cVal.Call.Args = []ssa.Value{cSrc}
+	typed(cVal, boolT)
+	cSink := &ssa.Call{}
+	cSink.Call.Value = sink
+	cSink.Call.Args = []ssa.Value{cSrc}
+	typed(cSink, types.Type(types.NewTuple()))
+	var cond ssa.Value = cVal
+	var notI *ssa.UnOp
+	if shape >= 5 {
+		notI = &ssa.UnOp{Op: token.NOT, X: cVal}
+		typed(notI, boolT)
+		cond = notI
+	}
+	mkBlock := func(idx int) *ssa.BasicBlock { return &ssa.BasicBlock{Index: idx} }
+	link := func(from *ssa.BasicBlock, to ...*ssa.BasicBlock) {
+		from.Succs = to
+		for _, t := range to {
+			t.Preds = append(t.Preds, from)
+		}
+	}
+	b0, b1, b2, b3 := mkBlock(0), mkBlock(1), mkBlock(2), mkBlock(3)
+	var blocks []*ssa.BasicBlock
+	switch shape {
+	case 4:
+		hSetBlock(mainFn, b0, []ssa.Instruction{cSrc, &ssa.Jump{}})
+		hSetBlock(mainFn, b1, []ssa.Instruction{cSink, cVal, &ssa.If{Cond: cVal}})
+		hSetBlock(mainFn, b2, []ssa.Instruction{&ssa.Return{}})
+		link(b0, b1)
+		link(b1, b1, b2)
+		blocks = []*ssa.BasicBlock{b0, b1, b2}
+	default:
+		first := []ssa.Instruction{cSrc}
+		if shape == 3 {
+			first = append(first, cSink)
+		}
+		first = append(first, cVal)
+		if notI != nil {
+			first = append(first, notI)
+		}
+		first = append(first, &ssa.If{Cond: cond})
+		thenI, elseI, joinI := []ssa.Instruction{}, []ssa.Instruction{}, []ssa.Instruction{}
+		switch shape {
+		case 0, 5:
+			thenI = append(thenI, cSink)
+		case 1, 6:
+			elseI = append(elseI, cSink)
+		case 2:
+			joinI = append(joinI, cSink)
+		}
+		hSetBlock(mainFn, b0, first)
+		hSetBlock(mainFn, b1, append(thenI, &ssa.Jump{}))
+		hSetBlock(mainFn, b2, append(elseI, &ssa.Jump{}))
+		hSetBlock(mainFn, b3, append(joinI, &ssa.Return{}))
+		link(b0, b1, b2)
+		link(b1, b3)
+		link(b2, b3)
+		blocks = []*ssa.BasicBlock{b0, b1, b2, b3}
+	}
+	mainFn.Blocks = blocks
+	cfg := &config.Config{}
+	s := &AnalyzerState{
+		Config:          cfg,
+		Logger:          &config.LogGroup{},
+		Program:         prog,
+		PointerAnalysis: &pointer.Result{Queries: map[ssa.Value]pointer.Pointer{}, IndirectQueries: map[ssa.Value]pointer.Pointer{}},
+		Globals:         map[*ssa.Global]*GlobalNode{},
+		FlowGraph:       &InterProceduralFlowGraph{Summaries: map[*ssa.Function]*SummaryGraph{}},
+	}
+	w.State = s
+	track := func(*AnalyzerState, ssa.Node) bool { return false }
+	w.Main = NewSummaryGraph(s, mainFn, 1, track, nil)
+	_, w.Err = RunIntraProcedural(s, w.Main)
+	s.FlowGraph.Summaries[mainFn] = w.Main
+	linkCall := func(call *ssa.Call, callee *ssa.Function, id uint32) *CallNode {
+		sg := NewSummaryGraph(s, callee, id, track, nil)
+		sg.Constructed = true
+		s.FlowGraph.Summaries[callee] = sg
+		cn := w.Main.Callees[call][callee]
+		if cn != nil {
+			cn.CalleeSummary = sg
+			sg.Callsites[call] = cn
+		}
+		return cn
+	}
+	w.Source = linkCall(cSrc, source, 2)
+	linkCall(cVal, validate, 3)
+	w.Sink = linkCall(cSink, sink, 4)
+	return w
+}
